@@ -7,15 +7,17 @@
 (* forms, and the integral scale can be prescribed instead of the length   *)
 (* scale.                                                                  *)
 (*                                                                         *)
-(* Eight independent parts share this module; a configuration selects one  *)
-(* through INIT/NEXT (InitGraph/NextGraph, InitVariant, InitPoly, InitInt, *)
-(* InitHist/NextHist, InitTpl, InitHalf, InitCtor).  Others' vars: None.   *)
+(* Independent parts share this module; a configuration selects one        *)
+(* through INIT/NEXT (InitGraph/NextGraph, InitVariant, InitUnit, InitPoly, *)
+(* InitInt, InitHist/NextHist, InitTpl, InitHalf, InitCtor).  The variables *)
+(* of the other parts are None.                                            *)
 (*                                                                         *)
 (*  A  derivation graph: which function a class gets for each of the four  *)
 (*     names given the subset D it defines itself; evaluation must         *)
 (*     terminate in a member of D; D = {} must be rejected.                *)
 (*  B  variant rules as exact reductions "variant(args) = f(lag)" on a     *)
-(*     lattice on which the transformed lag is exact.                      *)
+(*     lattice on which the transformed lag is exact; the same cases in    *)
+(*     other length units (len_scale, lags, positions, radius x 2^ue).     *)
 (*  C  PolyCor: the documented closed forms of the polynomial / rational   *)
 (*     models evaluated with exact rationals on lags k/8 * len_scale.      *)
 (*  D  prescribing the integral scale (scalar and list forms).             *)
@@ -277,36 +279,61 @@ InitVariant ==
 Stutter == UNCHANGED vars
 
 (* invariants of part B *)
-NuggetOnlyAtZero == vc.kind = "nugget" =>
-  /\ (vc.const # "none") <=> (vc.x[1] = 0)
-  /\ (vc.const = "none" => vc.u = vc.x[1])
-  /\ (vc.const # "none" => vc.const = (IF vc.fn = "variogram" THEN "zero" ELSE "sill"))
-AxisScales == vc.kind = "axis" =>
-  /\ (vc.axis = 0 => vc.u = vc.x[1])
-  /\ (vc.axis > 0 => Mul(QI(vc.u), Pow2(vc.es[vc.axis])) = QI(Abs(vc.x[1])))
-  /\ (vc.axis > 0 => vc.u >= 0)
-ChordBounds == vc.kind = "yadrenko" =>
-  /\ 0 <= vc.u /\ vc.u <= 2 * vc.uR
-  /\ (vc.t = 0 => vc.u = 0)
-  /\ (vc.t = 3 => vc.u = 2 * vc.uR)        \* antipodal points: the diameter
-  /\ (vc.t = 1 => vc.u = vc.uR)            \* 60 degrees: equilateral triangle
-SpatialSound == vc.kind = "spatial" =>
-  LET d == vc.dim
-      R == Rotate(d, vc.qs)
-      T == Derotate(d, vc.qs)
-      y == Iso(d, vc.qs, vc.es, vc.x)
-  IN /\ \A i \in 1..NoAng(d) : IsAngle(vc.qs[i])
+NuggetOK(c) == c.kind = "nugget" =>
+  /\ (c.const # "none") <=> (c.x[1] = 0)
+  /\ (c.const = "none" => c.u = c.x[1])
+  /\ (c.const # "none" => c.const = (IF c.fn = "variogram" THEN "zero" ELSE "sill"))
+AxisOK(c) == c.kind = "axis" =>
+  /\ (c.axis = 0 => c.u = c.x[1])
+  /\ (c.axis > 0 => Mul(QI(c.u), Pow2(c.es[c.axis])) = QI(Abs(c.x[1])))
+  /\ (c.axis > 0 => c.u >= 0)
+ChordOK(c) == c.kind = "yadrenko" =>
+  /\ 0 <= c.u /\ c.u <= 2 * c.uR
+  /\ (c.t = 0 => c.u = 0)
+  /\ (c.t = 3 => c.u = 2 * c.uR)        \* antipodal points: the diameter
+  /\ (c.t = 1 => c.u = c.uR)            \* 60 degrees: equilateral triangle
+SpatialOK(c) == c.kind = "spatial" =>
+  LET d == c.dim
+      R == Rotate(d, c.qs)
+      T == Derotate(d, c.qs)
+      y == Iso(d, c.qs, c.es, c.x)
+  IN /\ \A i \in 1..NoAng(d) : IsAngle(c.qs[i])
      /\ MatMul3(T, R) = Diag3(15625) /\ MatMul3(R, T) = Diag3(15625)   \* derotation undoes rotation
      /\ MatMul3(R, Transpose3(R)) = Diag3(15625)                      \* orthogonal
      /\ (d < 3 => R[3] = <<0, 0, 125>> /\ Col3(R, 3) = <<0, 0, 125>>)   \* embedding of lower dimensions
      /\ (d < 2 => R = Diag3(125))
-     /\ Aniso(d, vc.qs, vc.es, y) = vc.x                              \* Iso and Aniso are inverse
-     /\ IsSquare(NormSq(y, d)) /\ vc.u * vc.u = NormSq(y, d)
-     /\ SpatialRule(d, vc.qs, vc.es, Neg1(vc.x)).u = vc.u             \* even
-     /\ ((\A i \in 1..d - 1 : vc.es[i] = 0) => 15625 * vc.u * vc.u = NormSq(vc.x, d))  \* rotations keep the norm
-     /\ ((\A i \in 1..NoAng(d) : vc.qs[i] = A0) =>
-           vc.u * vc.u = NormSq([i \in 1..d |-> IF i = 1 THEN DivExact(vc.x[1], 125)
-                                                ELSE DivPow2(DivExact(vc.x[i], 125), vc.es[i - 1])], d))
+     /\ Aniso(d, c.qs, c.es, y) = c.x                              \* Iso and Aniso are inverse
+     /\ IsSquare(NormSq(y, d)) /\ c.u * c.u = NormSq(y, d)
+     /\ SpatialRule(d, c.qs, c.es, Neg1(c.x)).u = c.u             \* even
+     /\ ((\A i \in 1..d - 1 : c.es[i] = 0) => 15625 * c.u * c.u = NormSq(c.x, d))  \* rotations keep the norm
+     /\ ((\A i \in 1..NoAng(d) : c.qs[i] = A0) =>
+           c.u * c.u = NormSq([i \in 1..d |-> IF i = 1 THEN DivExact(c.x[1], 125)
+                                                ELSE DivPow2(DivExact(c.x[i], 125), c.es[i - 1])], d))
+
+NuggetOnlyAtZero == NuggetOK(vc)
+AxisScales       == AxisOK(vc)
+ChordBounds      == ChordOK(vc)
+SpatialSound     == SpatialOK(vc)
+
+(* The length unit.  Every reduction above is stated in units of len_scale (lags and
+   positions are multiples of len_scale/16 resp. len_scale/2000, the sphere radius is
+   a multiple of len_scale/8): multiplying len_scale, every lag, every position and
+   geo_scale by a common factor leaves the case, its transformed lag (in the new
+   unit) and every function value unchanged; in particular the nugget-aware variants
+   differ from the plain functions exactly at lag 0 in every unit.  The unit is a
+   power of two 2^ue, so the float images of all lengths are exact.            *)
+CONSTANTS UnitExps
+UnitCases(ds) == NuggetCases(ds) \cup AxisCases(ds) \cup YadCases(ds) \cup SpatialCases(ds \cap {1, 2})
+InitUnit ==
+  /\ part = "unit"
+  /\ \E e \in UnitExps, c \in UnitCases(Dims) : vc = [kind |-> "unit", ue |-> e, c |-> c]
+  /\ D = None /\ inst = None /\ pc = None /\ abstract = None /\ ev = None
+  /\ pm = None /\ tab = None /\ isc = None
+UnitSound ==
+  /\ vc.ue \in UnitExps
+  /\ NuggetOK(vc.c) /\ AxisOK(vc.c) /\ ChordOK(vc.c) /\ SpatialOK(vc.c)
+  (* a constant (0 / sill) replaces the plain function at lag 0 and nowhere else *)
+  /\ (vc.c.const # "none") <=> (vc.c.kind = "nugget" /\ vc.c.x[1] = 0)
 
 -----------------------------------------------------------------------------
 (*                 C.  PolyCor: documented closed forms                    *)
@@ -390,6 +417,12 @@ PolyIdentities == \A i \in Rows :
   /\ tab[i].covariance = Mul(QI(pm.p.var), tab[i].correlation)
   /\ tab[i].correlation = CorDoc(pm.m, Div(Mul(QI(pm.p.res), tab[i].r), Pow2(pm.p.le)))
   /\ tab[i].correlation = tab[i].cor
+(* the functions depend on the lag only through r / len_scale: the same row for every length scale of the lattice *)
+PolyUnitFree == \A i \in Rows : \A le2 \in LenExps :
+  LET q == Row(pm.m, [pm.p EXCEPT !.le = le2], i - 1)
+  IN /\ q.h = tab[i].h /\ q.cor = tab[i].cor /\ q.correlation = tab[i].correlation
+     /\ q.covariance = tab[i].covariance /\ q.variogram = tab[i].variogram
+     /\ q.r = Mul(tab[i].r, Pow2(le2 - pm.p.le))
 CorAtZero == /\ tab[1].r = Zero /\ tab[1].cor = One /\ tab[1].correlation = One
              /\ tab[1].covariance = QI(pm.p.var) /\ tab[1].variogram = QI(pm.p.nug)
 Monotone == \A i \in Rows : i > 1 => Leq(tab[i].correlation, tab[i - 1].correlation)
